@@ -7,6 +7,7 @@ import (
 	"errors"
 	"fmt"
 	"reflect"
+	"strings"
 	"sync"
 	"sync/atomic"
 	"time"
@@ -54,6 +55,8 @@ type Scenario struct {
 	Plugin   bool  `json:"recording_plugin,omitempty"`     // WithPlugin: a recording, sometimes failing plugin
 	Poll     bool  `json:"preconfirmed_polling,omitempty"` // pre-confirmed polling on (its requests fail)
 	ReadOnly bool  `json:"read_only,omitempty"`            // readOnlyBlockchain: the chain must not change
+	// EmptyDiffPct: percent of the source's blocks with an EMPTY state diff (default: the generator's 10)
+	EmptyDiffPct int `json:"empty_diff_pct,omitempty"`
 }
 
 type outcome struct {
@@ -76,6 +79,7 @@ type outcome struct {
 	hits        map[string]int
 	final       *blockchain.Blockchain
 	persisted   map[string]int
+	selfErr     string // the harness's own forged-block generator failed
 }
 
 // buildChains manufactures every epoch's chain with juno itself.
@@ -84,6 +88,9 @@ func buildChains(sc Scenario) ([][]*lib.Bundle, error) {
 	opt := lib.DefaultGenOptions()
 	opt.MaxTxs = 2
 	opt.MaxEvents = 2
+	if sc.EmptyDiffPct > 0 {
+		opt.EmptyDiffs = sc.EmptyDiffPct
+	}
 	g := lib.NewChainGen(r, sc.SrcNew, opt)
 	var out [][]*lib.Bundle
 	for i, e := range sc.Epochs {
@@ -237,6 +244,10 @@ func runScenario(sc Scenario) (out *outcome) {
 	rec.mu.Lock()
 	rec.enabled = true
 	rec.checkStored = func(num uint64, hash felt.Felt) string {
+		// store-level: the state root the new head claims is the root of the state the node now holds
+		if why := headRootCheck(bc); why != "" {
+			return why
+		}
 		want, ok := valid[hash.String()]
 		if !ok {
 			return "no block with this hash exists in any chain of the source"
@@ -250,7 +261,25 @@ func runScenario(sc Scenario) (out *outcome) {
 
 	src := &source{rec: rec, chains: chains, trig: nil, faults: sc.Faults, seed: sc.Seed ^ 0xC06,
 		epoch: sc.StartEpoch, asked: map[string]int{}, faulted: map[string]int{}, hits: map[string]int{}, servedHeights: map[uint64]bool{},
-		notFound: 150 * time.Microsecond}
+		notFound: 150 * time.Microsecond, net: net}
+	forging := sc.Faults.ForgePct > 0
+	for _, ru := range sc.Faults.Rules {
+		forging = forging || strings.HasPrefix(ru.Action, "forged")
+	}
+	if forging {
+		// a separate Blockchain (same backend) runs SanityCheckNewHeight on every forged answer: the
+		// generator must produce blocks that only Store can refuse
+		chk, _ := lib.NewNode(net, sc.DstNew)
+		src.sane = func(b *lib.Bundle) error {
+			_, err := chk.SanityCheckNewHeight(b.Block, b.SU, b.Classes)
+			return err
+		}
+		src.registerValid = func(b *lib.Bundle) {
+			rec.mu.Lock()
+			valid[b.Block.Hash.String()] = b
+			rec.mu.Unlock()
+		}
+	}
 	// triggers are indexed by epoch
 	src.trig = make([]Trigger, 0, len(chains))
 	for e := 0; e < len(chains)-1; e++ {
@@ -456,6 +485,7 @@ func runScenario(sc Scenario) (out *outcome) {
 
 	src.mu.Lock()
 	out.hits = src.hits
+	out.selfErr = src.selfErr
 	if src.maxInflight > 1 {
 		out.hits["parallel-fetchers(catch-up mode)"]++
 	}
@@ -478,6 +508,14 @@ func runScenario(sc Scenario) (out *outcome) {
 				} else {
 					out.persisted["persisted:rejected-tampered"]++
 				}
+				// a self-consistent forged block passes verifierTask: this error is Store's
+				if m := e.Error(); strings.HasPrefix(h.fault, "forged:") && !h.valid &&
+					(strings.Contains(m, "does not match the expected root") || strings.Contains(m, "commitment mismatch")) {
+					out.persisted["forged:refused-by-Store"]++
+					if h.fault == "forged:state-root(empty-diff)" {
+						out.persisted["forged:empty-diff-root-refused-by-Store"]++
+					}
+				}
 			}
 		default:
 			out.persisted["persisted:never-reached-store"]++
@@ -492,6 +530,40 @@ func runScenario(sc Scenario) (out *outcome) {
 	out.dbFailed = wdb.failed
 	rec.mu.Unlock()
 	return out
+}
+
+// stateRootPrefix marks the note of a stored block whose claimed state root is not the state's root.
+const stateRootPrefix = "STATE-ROOT: "
+
+// headRootCheck: the root of the state the node holds (computed from its tries) must be the root the
+// head's header claims. (Legacy backend: deprecatedstate computes the commitment from the tries in the
+// database. New backend: the head state is OPENED at the claimed root; a root that is not in the trie
+// database makes that, or the commitment, fail.)
+func headRootCheck(bc *blockchain.Blockchain) string {
+	h, err := bc.HeadsHeader()
+	if err != nil {
+		return ""
+	}
+	st, closer, err := bc.HeadState()
+	if err != nil {
+		return fmt.Sprintf("%sthe state of the new head (block %d, claimed root %s) cannot be opened: %v", stateRootPrefix, h.Number, h.GlobalStateRoot.String(), err)
+	}
+	defer func() { _ = closer() }()
+	c, ok := st.(interface {
+		Commitment(string) (felt.Felt, error)
+	})
+	if !ok {
+		return ""
+	}
+	root, err := c.Commitment(h.ProtocolVersion)
+	if err != nil {
+		return fmt.Sprintf("%scommitment of the state under the new head (block %d, claimed root %s): %v", stateRootPrefix, h.Number, h.GlobalStateRoot.String(), err)
+	}
+	if !root.Equal(h.GlobalStateRoot) {
+		return fmt.Sprintf("%sthe header of the new head (block %d) claims state root %s, the root of the node's state is %s", stateRootPrefix, h.Number,
+			h.GlobalStateRoot.String(), root.String())
+	}
+	return ""
 }
 
 // sameBlock compares what the node returns for a stored block with the valid bundle.
